@@ -15,7 +15,7 @@ import kani      # noqa: E402
 import plan      # noqa: E402
 import verus     # noqa: E402
 
-GEN_DIR = os.path.join(ROOT, '.cache', 'gen')
+GEN_DIR = os.path.join(ROOT, '.cache', 'gen', str(os.getpid()))   # per process: checks may run concurrently
 REPLAYS = os.path.join(ROOT, 'replays')
 EVIDENCE = os.path.join(ROOT, 'evidence') if not os.environ.get('VERIF_NO_EVIDENCE') else os.path.join(ROOT, '.cache', 'evidence-scratch')
 
@@ -223,6 +223,14 @@ def run_kani_units(units, tier, jobs, keep=False):
 # ------------------------------------------------------------------ property
 
 def run_property(pid, tier, seed, args):
+    try:
+        return _run_property(pid, tier, seed, args)
+    finally:
+        import shutil
+        shutil.rmtree(GEN_DIR, ignore_errors=True)
+
+
+def _run_property(pid, tier, seed, args):
     t0 = time.time()
     P = plan.PROPS[pid]
     os.makedirs(REPLAYS, exist_ok=True)
@@ -351,7 +359,7 @@ def write_replay(pid, o, vmetas):
         for m in vmetas:
             if m['stderr_tail']:
                 rec['verifier_output'] = m['stderr_tail']
-                rec['generated_file'] = m['gen']
+                rec['generated_file'] = 'regenerate with: ./check %s --show-extraction' % pid
         # try to find a concrete failing input natively (differential search against the executable spec)
         try:
             import witness
